@@ -24,7 +24,10 @@
 //	         step drops to the lowest priority (Burckhardt et al., "A randomized scheduler with
 //	         probabilistic guarantees of finding bugs").
 //	Replay   follows a recorded decision list; when the recorded task is not parked (divergence)
-//	         the lowest-numbered parked task runs instead and Divergences is incremented.
+//	         Divergences is incremented.  Past the end of the list (and on divergence) the task
+//	         that ran last keeps running if it is parked (no preemption), otherwise the
+//	         lowest-numbered parked task runs.  A decision list may therefore be a PREFIX; this is
+//	         what Explore uses to enumerate schedules systematically.
 //	Free     no scheduling at all: tasks run as ordinary goroutines and Yield only occasionally
 //	         calls runtime.Gosched.  Not replayable; for runs under the Go race detector.
 //
@@ -73,6 +76,14 @@ type Options struct {
 	Decisions []int
 }
 
+// StepInfo describes one scheduling step: which tasks were parked, which one ran at the previous
+// step (-1 at the start) and which one was chosen.
+type StepInfo struct {
+	Chosen int
+	Parked []int
+	Prev   int
+}
+
 // Panic is a panic recovered from a task function.
 type Panic struct {
 	Task  string
@@ -112,6 +123,7 @@ type Scheduler struct {
 	tasks     []*Task
 	running   int
 	decisions []int
+	trace     []StepInfo
 	abandoned bool
 	started   bool
 
@@ -296,8 +308,17 @@ func (s *Scheduler) Run(watchdog time.Duration) error {
 			s.mu.Unlock()
 			break
 		}
+		ids := make([]int, len(parked))
+		for i, t := range parked {
+			ids[i] = t.ID
+		}
+		prev := -1
+		if len(s.decisions) > 0 {
+			prev = s.decisions[len(s.decisions)-1]
+		}
 		pick := s.choose(parked, step)
 		s.decisions = append(s.decisions, pick.ID)
+		s.trace = append(s.trace, StepInfo{Chosen: pick.ID, Parked: ids, Prev: prev})
 		pick.state = stRunning
 		s.running++
 		s.mu.Unlock()
@@ -319,8 +340,15 @@ func (s *Scheduler) choose(parked []*Task, step int) *Task {
 					return t
 				}
 			}
+			s.Divergences++
 		}
-		s.Divergences++
+		if n := len(s.decisions); n > 0 {
+			for _, t := range parked {
+				if t.ID == s.decisions[n-1] {
+					return t // keep running the same task: no preemption
+				}
+			}
+		}
 		return parked[0]
 	case PCT:
 		byPrio := func(i, j int) bool { return parked[i].prio > parked[j].prio }
@@ -342,6 +370,74 @@ func (s *Scheduler) Decisions() []int {
 	s.mu.Lock()
 	defer s.mu.Unlock()
 	return append([]int(nil), s.decisions...)
+}
+
+// Trace returns the recorded scheduling steps (with the alternatives that were available).
+func (s *Scheduler) Trace() []StepInfo {
+	s.mu.Lock()
+	defer s.mu.Unlock()
+	return append([]StepInfo(nil), s.trace...)
+}
+
+// Explore enumerates schedules depth-first, each exactly once, with at most maxPreempt
+// preemptions (a preemption = running another task although the task that ran last is still
+// parked, i.e. could have continued).  run must execute a FRESH instance of the scenario under a
+// Replay scheduler whose Decisions are the given prefix and return that scheduler's Trace; it
+// returns false to stop the exploration.  The scenario must be deterministic given the decisions.
+// Explore stops after maxRuns runs (0 = unlimited) and reports whether it was cut short.
+func Explore(maxPreempt, maxRuns int, run func(prefix []int) (trace []StepInfo, cont bool)) (runs int, truncated bool) {
+	stack := [][]int{{}}
+	for len(stack) > 0 {
+		if maxRuns > 0 && runs >= maxRuns {
+			return runs, true
+		}
+		prefix := stack[len(stack)-1]
+		stack = stack[:len(stack)-1]
+		trace, cont := run(prefix)
+		runs++
+		if !cont {
+			return runs, len(stack) > 0
+		}
+		// cumulative preemption count along the trace
+		pre := 0
+		var children [][]int
+		for i, st := range trace {
+			prevParked := false
+			for _, id := range st.Parked {
+				if id == st.Prev {
+					prevParked = true
+				}
+			}
+			if i >= len(prefix) {
+				for _, alt := range st.Parked {
+					if alt == st.Chosen {
+						continue
+					}
+					cost := pre
+					if prevParked && alt != st.Prev {
+						cost++
+					}
+					if cost > maxPreempt {
+						continue
+					}
+					child := make([]int, i+1)
+					for j := 0; j < i; j++ {
+						child[j] = trace[j].Chosen
+					}
+					child[i] = alt
+					children = append(children, child)
+				}
+			}
+			if prevParked && st.Chosen != st.Prev {
+				pre++
+			}
+		}
+		// push in reverse so that the earliest branch point is explored first
+		for i := len(children) - 1; i >= 0; i-- {
+			stack = append(stack, children[i])
+		}
+	}
+	return runs, false
 }
 
 // Steps returns the number of scheduling steps taken so far.
